@@ -135,7 +135,7 @@ def check_sets(scn, res, restarts=False):
 
 
 def oracle_c01(scn, res):
-    return check_sets(scn, res, restarts=bool(scn.get('faults'))), outcome(res)
+    return check_sets(scn, res, restarts=bool(scn.get('faults'))) + check_no_crash(scn, res, 'C01'), outcome(res)
 
 
 # ---- C02: order / duplication -----------------------------------------------------------------------------------------
@@ -401,7 +401,7 @@ def check_composition(scn, res, only=None):
 
 
 def oracle_c03(scn, res):
-    return check_composition(scn, res) + check_sets(scn, res) + check_order(scn, res), outcome(res)
+    return check_composition(scn, res) + check_sets(scn, res) + check_order(scn, res) + check_no_crash(scn, res, 'C03'), outcome(res)
 
 
 def check_content(scn, res):
@@ -590,7 +590,7 @@ def check_waits(scn, res):
 
 
 def oracle_c04(scn, res):
-    return (check_waits(scn, res) if scn.get('c04_waits') else check_stall(scn, res)) + check_order(scn, res) + check_sets(scn, res), outcome(res)
+    return (check_waits(scn, res) if scn.get('c04_waits') else check_stall(scn, res)) + check_order(scn, res) + check_sets(scn, res) + check_no_crash(scn, res, 'C04'), outcome(res)
 
 
 # ---- C05: ephemeral listeners -----------------------------------------------------------------------------------------------
@@ -740,7 +740,7 @@ def sync_delivery_times(scn, res):
 
 
 def oracle_c05(scn, res):
-    return check_ephemeral(scn, res) + check_sets(scn, res, restarts=True) + check_order(scn, res), outcome(res)
+    return check_ephemeral(scn, res) + check_sets(scn, res, restarts=True) + check_order(scn, res) + check_no_crash(scn, res, 'C05'), outcome(res)
 
 
 # ---- C07: load balancing ------------------------------------------------------------------------------------------------------
@@ -843,7 +843,7 @@ def check_balance(scn, res):
     return viols
 
 
-def check_no_crash(scn, res):
+def check_no_crash(scn, res, pid='C07'):
     """No scenario of the C07 family scripts an exception: a filter that dies of one was handed something the library itself refuses
     (a balanced-sources joiner given two workers' frames at once raises 'duplicate topic': a mixed set caught by the library's own check)."""
 
@@ -852,7 +852,7 @@ def check_no_crash(scn, res):
 
     for e in res.log:
         if e['ev'] == 'end' and e['how'] == 'raised' and e.get('exc') not in ('HarnessError', 'Killed', 'Divergence') and e['f'] not in scripted:
-            viols.append({'signature': f'C07/filter-died-{e.get("exc")}/{family(scn)}',
+            viols.append({'signature': f'{pid}/filter-died-{e.get("exc")}/{family(scn)}',
                           'what': f'[{scn.get("name")}] {e["f"]} ended with {e.get("exc")}: {e.get("msg")} at {e["t"]} ms', 'detail': None})
 
     return viols
